@@ -397,6 +397,12 @@ func (g *Graph) retestedWithoutDef(obj types.Object, bv *V) bool {
 	return false
 }
 
+// ReachPlain is ReachFrom without the tracking of flags: the reachability of
+// the graph as drawn (what belongs to a loop, what lies behind an exit).
+func (g *Graph) ReachPlain(from *V, startAt bool, avoid *Avoid) map[*V]bool {
+	return g.reachPlain(from, startAt, avoid)
+}
+
 func (g *Graph) reachPlain(from *V, startAt bool, avoid *Avoid) map[*V]bool {
 	seen := map[*V]bool{}
 	var stack []*V
